@@ -95,7 +95,7 @@ fn repr<const N: usize>(lo: isize, hi: isize) {
 // Every arc-weighted digraph on 3 vertices, weights -4..=8, no negative circuit (assumed via the oracle).
 // @verif prop=C08 tier=quick fl=f2 role=dense/array t=1200 mem=14
 #[cfg_attr(kani, kani::proof)]
-#[cfg_attr(kani, kani::unwind(5))]
+#[cfg_attr(kani, kani::unwind(11))]
 pub fn c08_dense_n3() {
     dense::<3>(-4, 8);
 }
@@ -103,14 +103,14 @@ pub fn c08_dense_n3() {
 // Through AdjacencyListWeighted<isize> (map model), 3 vertices.
 // @verif prop=C08 tier=quick fl=f2 role=dense/repr t=1200 mem=14
 #[cfg_attr(kani, kani::proof)]
-#[cfg_attr(kani, kani::unwind(10))]
+#[cfg_attr(kani, kani::unwind(11))]
 pub fn c08_repr_n3() {
     repr::<3>(-4, 8);
 }
 
 // @verif prop=C08 tier=thorough fl=f2 role=dense/array t=3600 mem=24
 #[cfg_attr(kani, kani::proof)]
-#[cfg_attr(kani, kani::unwind(6))]
+#[cfg_attr(kani, kani::unwind(18))]
 pub fn c08_dense_n4() {
     dense::<4>(-4, 8);
 }
